@@ -104,7 +104,11 @@ REGISTRY.update({
                          "PARTIAL proof: C12_only_implied / C12_only_identity / C12_only_wf over Model/Marker.v (only() is implied by the marker and equivalent to it when it mentions only the kept names); "
                          "variable containment of the result and the exclude()/without_extras() statements are decided by the direct oracle only",
                          smark_pairs=100, proof=("Props/C12.v", ["C12_only_implied", "C12_only_identity", "C12_only_wf"])),
-    "C15": marker_runner(pm.oracle_c15, 500, 8000, GEN_RULE, PENDING, smark_pairs=100),
+    "C15": marker_runner(pm.oracle_c15, 500, 8000, GEN_RULE,
+                         "PARTIAL proof: C15_multi_of / C15_union_of (what MultiMarker.of / MarkerUnion.of return: the absorbing marker, the neutral marker, the single marker left, or a compound built from >= 2 pairwise distinct, "
+                         "non-absorbing processed markers with pairwise distinct children), C15_one_child_refuted (the recorded finding reproduced on the model). The rest of the normal form (no neutral / same-kind child for arbitrary inputs; "
+                         "union()'s raw candidate; union_simplify / intersect_simplify) is decided by the normal-form checker of the direct oracle and by the structural S-mark correspondence",
+                         smark_pairs=100, proof=("Props/C15.v", ["C15_multi_of", "C15_union_of", "of_body_shape", "C15_one_child_refuted"])),
 })
 
 
